@@ -31,7 +31,7 @@ import itertools
 
 import numpy as np
 
-from mc import ref
+from mc import core, ref
 from mc import seams
 
 PROPERTY = 'C09'
@@ -187,7 +187,7 @@ def check_tuples(numqi, out, n, tuples, site):
         # inverse map
         out.trans()
         try:
-            t2 = sp.to_int_tuple(M.copy())
+            t2 = core.pure_call(out, 'pure/to_int_tuple', sp.to_int_tuple, M.copy())
         except Exception as e:
             _viol(out, '%s/to_int_tuple/%s' % (site, type(e).__name__), 'to_int_tuple raised %r on from_int_tuple(t)' % (e,), n=n, int_tuple=list(t), matrix=M)
             t2 = None
@@ -197,7 +197,7 @@ def check_tuples(numqi, out, n, tuples, site):
         # closed-form inverse
         out.trans()
         try:
-            Minv = sp.inverse(M.copy())
+            Minv = core.pure_call(out, 'pure/inverse', sp.inverse, M.copy())
         except Exception as e:
             _viol(out, '%s/inverse/%s' % (site, type(e).__name__), 'inverse raised %r on a symplectic matrix' % (e,), n=n, int_tuple=list(t), matrix=M)
             Minv = None
@@ -464,7 +464,7 @@ def run_case(case, out, env):
             out.state()
             out.trans()
             try:
-                t = sp.to_int_tuple(M.copy())
+                t = core.pure_call(out, 'pure/to_int_tuple', sp.to_int_tuple, M.copy())
             except Exception as e:
                 _viol(out, 'group/to_int_tuple/%s' % type(e).__name__, 'to_int_tuple raised %r on a symplectic matrix' % (e,), n=n, matrix=M)
                 continue
@@ -484,7 +484,7 @@ def run_case(case, out, env):
             except Exception as e:
                 _viol(out, 'group/from_int_tuple/%s' % type(e).__name__, 'from_int_tuple raised %r on to_int_tuple(M)' % (e,), n=n, matrix=M, int_tuple=list(t))
             out.trans()
-            Mi = sp.inverse(M.copy()).astype(np.int64)
+            Mi = core.pure_call(out, 'pure/inverse', sp.inverse, M.copy()).astype(np.int64)
             Mm = M.astype(np.int64)
             if not (Mi.shape == Mm.shape and np.array_equal((Mi @ Mm) % 2, eye) and np.array_equal((Mm @ Mi) % 2, eye)):
                 _viol(out, 'group/inverse/not_two_sided', 'inverse(M) is not a two-sided inverse', n=n, matrix=M, inverse=Mi)
@@ -505,7 +505,7 @@ def run_case(case, out, env):
                 out.state()
                 out.trans()
                 try:
-                    h = sp.find_transvection(v0.copy(), v1.copy())
+                    h = core.pure_call(out, 'pure/find_transvection', sp.find_transvection, v0.copy(), v1.copy())
                 except Exception as e:
                     br = transv_branch(v0, v1, n)
                     _viol(out, 'transv/find_transvection/%s/%s' % (type(e).__name__, br), 'find_transvection raised %r on two non-zero vectors' % (e,), n=n, v0=v0, v1=v1)
@@ -519,7 +519,7 @@ def run_case(case, out, env):
                 out.outcome(key, nontrivial=bool(h.any()), pre_digested=True)
                 # numqi's own transvection must agree with the reference application
                 out.trans()
-                y_impl = sp.transvection(v0.copy(), h[0], h[1])
+                y_impl = core.pure_call(out, 'pure/transvection', sp.transvection, v0.copy(), h[0], h[1])
                 y_ref = ref_transvection(ref_transvection(v0, h[0]), h[1])
                 if not (y_impl.shape == y_ref.shape and np.array_equal(y_impl, y_ref)):
                     _viol(out, 'transv/transvection/ne_reference', 'transvection(x,h0,h1) != x+<x,h0>h0 followed by +<.,h1>h1', n=n, x=v0, h0=h[0], h1=h[1], got=y_impl, expected=y_ref)
@@ -543,8 +543,8 @@ def run_case(case, out, env):
             out.trans(2)
             want = ref_transvection(X, np.broadcast_to(h, X.shape))
             try:
-                got2 = sp.transvection(X.copy(), h.copy())
-                got3 = sp.transvection(X3.copy(), h.copy())
+                got2 = core.pure_call(out, 'pure/transvection', sp.transvection, X.copy(), h.copy())
+                got3 = core.pure_call(out, 'pure/transvection', sp.transvection, X3.copy(), h.copy())
             except Exception as e:
                 _viol(out, 'tbatch/transvection/%s' % type(e).__name__, 'batched transvection raised %r' % (e,), n=n, h=h)
                 continue
@@ -602,7 +602,7 @@ def run_case(case, out, env):
                 out.outcome(b'R%d:' % n + pack(M), nontrivial=pack(M) != ident, pre_digested=True)
                 out.trans()
                 try:
-                    t2 = sp.to_int_tuple(M.copy())
+                    t2 = core.pure_call(out, 'pure/to_int_tuple', sp.to_int_tuple, M.copy())
                 except Exception as e:
                     _viol(out, 'rand/to_int_tuple/%s' % type(e).__name__, 'to_int_tuple raised %r on the matrix rand_SpF2 returned' % (e,), n=n, answers=list(ans), matrix=M)
                     continue
